@@ -44,13 +44,13 @@ def run(tier):
                "text": mm.get("text", mm.get("printed", mm.get("program")))}
         chk.violation(sig, mm)
     # ---- impl -> spec: random deeper types, validated by TLC
-    n, depth = (20000, 7) if thorough else (500, 5)
+    n, depth = (9000, 6) if thorough else (500, 5)
     trace = os.path.join(out, "gen_types.ndjson")
     rc, txt = C.run_vh(["print", "gentypes", str(n), str(depth), trace])
     g = json.loads(txt)
     for mm in g["mismatches"]:
         chk.violation({"kind": "gen_" + mm["kind"], "type": mm.get("type"), "text": mm.get("printed")}, mm)
-    tres = C.run_tlc("MC_PrintTrace", "MC_PrintTrace.cfg", workers=8 if thorough else 4, timeout=1800,
+    tres = C.run_tlc("MC_PrintTrace", "MC_PrintTrace.cfg", workers=8 if thorough else 4, timeout=1800, heap="6g" if thorough else "3g",
                      env_extra={"VERIF_IN": trace}, name="print_trace_" + tier)
     C.require_tlc_ok(tres, "MC_PrintTrace (validation of printed random types)")
     chk.add_tlc("MC_PrintTrace", tres, "every recorded text is in PrintSet(T) and parses to T")
